@@ -41,6 +41,8 @@ def make_array(spec):
             arr = arr.transpose("channel", "time")
     else:
         arr = xr.DataArray(np.arange(n) + 1.0, dims=("time",), coords={"time": tc})
+    if spec.get("dtype") and not spec.get("nans"):
+        arr = arr.astype(spec["dtype"])
     if spec.get("nans"):
         vals = arr.values.astype(float).copy()
         vals[(np.arange(vals.shape[arr.get_axis_num("time")]) % 3 == 1).reshape([-1 if d == "time" else 1 for d in arr.dims]) & np.ones(vals.shape, bool)] = np.nan
@@ -242,6 +244,8 @@ def width_case(draw):
     n = s["n"]
     s.update({"width": draw(st.one_of(st.integers(1, 3 * n + 2), st.sampled_from([n, n + 1, max(1, n - 1), 129]))), "position": draw(st.sampled_from(["start", "center", "end"])), "fn": draw(st.sampled_from(["adjust", "adjust", "specific"]))})
     s["nans"] = draw(st.integers(0, 3)) == 0
+    s["dtype"] = draw(st.sampled_from([None, None, "int64", "uint8", "float32"]))
+    s["fill"] = draw(st.sampled_from([FILL, FILL, 0.5, 1000.0]))
     return s
 
 
@@ -249,6 +253,7 @@ def check_width(spec, ctx):
     from soundevent import arrays
 
     arr, coords = make_array(spec)
+    fill_v = spec.get("fill", -1.0)
     n, w, pos, step = spec["n"], spec["width"], spec["position"], spec["step"]
     if w < 1 or pos not in ("start", "center", "end"):
         raise ValueError("malformed spec")
@@ -259,10 +264,10 @@ def check_width(spec, ctx):
     before = snapshot(arr)
     if spec["fn"] == "specific" and w != n:
         fn = arrays.operations.extend_dim_width if w > n else arrays.operations.crop_dim_width
-        kw = {"fill_value": FILL} if w > n else {}
+        kw = {"fill_value": fill_v} if w > n else {}
         out = ctx.call(spec, f"{fn.__name__}(width={w}, position={pos})", fn, arr, "time", w, position=pos, **kw)
     else:
-        out = ctx.call(spec, f"adjust_dim_width(width={w}, position={pos})", arrays.operations.adjust_dim_width, arr, "time", w, fill_value=FILL, position=pos)
+        out = ctx.call(spec, f"adjust_dim_width(width={w}, position={pos})", arrays.operations.adjust_dim_width, arr, "time", w, fill_value=fill_v, position=pos)
     ctx.unchanged(spec, "adjust_dim_width: the input array", before, arr)
     if pos == "start":  # documented defaults: position="start", fill_value=0
         d_out = arrays.operations.adjust_dim_width(arr, "time", w)
@@ -276,7 +281,7 @@ def check_width(spec, ctx):
     if w >= n:
         extra = w - n
         offs = {"start": [0], "end": [extra], "center": sorted({extra // 2, extra - extra // 2})}[pos]
-        o, why = embedded(arr, out, FILL)
+        o, why = embedded(arr, out, fill_v)
         if o is None or o not in offs:
             ctx.fail(f"extending to width {w} at '{pos}': original data not where requested ({why or 'offset ' + str(o)})", spec, o, offs, kind="placement")
         ideal = coords[0] + (np.arange(w) - o) * step
